@@ -152,6 +152,7 @@ class Executor:
         self.back_states = None
         self.templates = []            # template invariants: functions poly -> poly (candidate facts t(v) >= 0)
         self._cand_cache = {}
+        self.result_facts = None       # fn(trait, method, result symbol name) -> [poly >= 0] assumed about an abstract call's result
         self.weak_cands = {}           # ADT def -> candidate indices some loop's Houdini run has refuted (not re-tried at merges)
         self.struct_templates = {}     # ADT def -> fn({field name: value}) -> [(guard 0/1 poly | None, poly >= 0)]
         self.no_merge = False          # keep every path separate (used for path-wise summaries)
@@ -2197,6 +2198,10 @@ class Executor:
         name = callee["name"]
         trait = r["trait"]
         ret = self.mk_sym(self.normalize(dest_ty), self.fresh("%s" % name)) if dest_ty is not None else UNITV
+        if self.result_facts is not None and isinstance(ret, SymV):
+            # a rule's stated precondition on what an abstract callee returns (e.g. "an in-bounds pixel stream")
+            for q in self.result_facts(trait, name, ret.name) or ():
+                st.facts.add_fact_ge0(q)
         if not self.dry:
             pts, names = self.snapshot_args(st, args)
             st.trace.append(Ev("call", trait=trait, method=name, self_ty=r["self_ty"], gargs=r["args"], args=args, ret=ret,
